@@ -509,6 +509,15 @@ theorem goto_leads (he : Entry X a i T S C s) {t : Nat} (hia : InstrAt X.p a (i1
     simp only [body, hop, modeOf, hb, hb2, caseGoto, hia.operand he.pc 0 (t : Int) rfl, Except.map]
   exact Leads.of_step (step_goto hbody hw) (Leads.here ⟨rfl, hw, he.tp, he.tr, he.st, he.cap⟩)
 
+/-- a fragment followed by `Goto fin` -/
+theorem Delivers.goto {X : Setup} {mid fin : Nat} {T S S' : List Int} {C0 : List (Nat × Nat × Nat)} {rs : List Spec.St}
+    {s : VMState} (h : Delivers X mid T S S' C0 rs s) (hgo : InstrAt X.p mid (i1 opGoto (fin : Int)))
+    (hf : ∃ w, VM.fetch X.p fin = .ok w) : Delivers X fin T S S' C0 rs s := by
+  have := Delivers.bind (X := X) (b := fin) (S' := S') (g := fun r => [r]) rs s h ?_
+  · rwa [flatMap_singleton_id] at this
+  · intro r _ F s' v' _ he'
+    exact Delivers.single (v := v') (goto_leads he' hgo hf) rfl
+
 theorem lazybranch_leads (he : Entry X a i T S C s) {t : Int} (hia : InstrAt X.p a (i1 opLazybranch t))
     (hf : ∃ w, VM.fetch X.p (a + 2) = .ok w) :
     Leads X s (Entry X (a + 2) i ((a : Int) :: (i : Int) :: T) S C) := by
